@@ -342,7 +342,7 @@ PROPS["C12"] = dict(
     assumptions=["every stage satisfies its one-step theorem (C09-C11)", "known finding tail_shrink_over_len excluded (a chain is claimed only while no stage is in a recorded class)",
                  "hand-over by the adapter itself happens at a quiescent point (at construction)"],
     strength="full given C09-C11; inherits their known-finding classes",
-    level_text="Coq theorems: if two stages satisfy the one-step correctness statement then so does their composition (the lower stage's guarantee that every emitted diff is applicable to its view is the upper stage's input guard), for limit changes of either stage, for chains of any length by iteration (stated for three), lifted to whole histories; and into_parts of Head/Tail/Skip returns the current view. Tied to the crate by running all two-stage chains and sampled three-stage chains of the real adapters with taps between the stages, and 1-2 stage stacks end to end on a real ObservableVector subscriber (oracle-only stream).",
+    level_text="Coq theorems: if two stages satisfy the one-step correctness statement then so does their composition (the lower stage's guarantee that every emitted diff is applicable to its view is the upper stage's input guard), for limit changes of either stage, for chains of any length by iteration (stated for three), lifted to whole histories; and into_parts of Head/Tail/Skip returns the current view; end to end: an ObservableVector under any history, one of its subscribers and any correct adapter fed with what that subscriber's stream delivers - no panic, every emitted diff applicable, and at every Pending the view stands for the vector's current contents (instance spelled out for Head). Tied to the crate by running all two-stage chains and sampled three-stage chains of the real adapters with taps between the stages, and 1-2 stage stacks end to end on a real ObservableVector subscriber (oracle-only stream).",
     level_note="Trusted: as C09. Known finding F4 (tail_shrink_over_len) is inherited and reported as KNOWN-FINDING; F7 (into_parts handed the source copy) was repaired in 8c08ab1.")
 
 
